@@ -243,6 +243,9 @@ def run(ctx):
     # D15: "for any ... alignment": an access whose displacement contains a program-chosen value is not emitted as aligned
     from x86enc import check_aligned_load_offsets
     check_aligned_load_offsets(db, rep, "D15-ALIGNED-ONLY-AT-LOOP-OFFSET")
+    # D16: the code that runs is the program's CURRENT code: a stale attach-time copy of the entry point runs whatever was placed in
+    # the freed chunk since - another program, over this one's arrays (shared with C06/C16/C17)
+    importlib.import_module("rules.c06").snapshot_slots(db, rep, "D16-LIVE-CODE")
     from rules.c15 import d6_token_cursor
     SETN = ("orc_program_set_constant_n", "orc_program_set_n_multiple", "orc_program_set_n_minimum", "orc_program_set_n_maximum",
             "orc_program_set_constant_m", "orc_program_set_2d")
